@@ -365,7 +365,23 @@ func endianOf(name string) (string, string) {
 }
 
 // primitive -> Op for a write call (args after buf, value) or read call (args after buf)
+// every (direction, codec function, op) the generated code's calls were read as: Lean checks that the model's own table from
+// ops to functions (GoIR.opWriter / opReader) names the same function (Obl.ir_calls)
+var callLog = map[string]bool{}
+
 func (c *ctx) primOp(write bool, name string, targs []string, rest []ast.Expr, valType string) (Op, bool) {
+	op, ok := c.primOp0(write, name, targs, rest, valType)
+	if ok {
+		w := "false"
+		if write {
+			w = "true"
+		}
+		callLog[fmt.Sprintf("(%s, %q, %s)", w, name, leanOp(op))] = true
+	}
+	return op, ok
+}
+
+func (c *ctx) primOp0(write bool, name string, targs []string, rest []ast.Expr, valType string) (Op, bool) {
 	base, e := endianOf(name)
 	if write {
 		base = strings.TrimPrefix(base, "Write")
@@ -1541,13 +1557,6 @@ func main() {
 	codecNS := flag.String("codecns", "Gen", "Lean namespace of the GoIR output")
 	flag.Parse()
 
-	if *outCodec != "" {
-		srcIR, summary := emitGoIR(*root, *codecNS)
-		os.WriteFile(*outCodec, []byte(srcIR), 0o644)
-		for _, l := range summary {
-			fmt.Fprintln(os.Stderr, "goir:", l)
-		}
-	}
 
 	sc := &Schema{}
 	infos := map[string]*pkgInfo{}
@@ -1725,6 +1734,22 @@ func main() {
 				"/-- the bodies of Registry / Get / Remove / Clear as lock programs -/\ndef lockProgs : Progs :=\n  { reg := " + prog("Registry") + ",\n    get := " + prog("Get") +
 				",\n    remove := " + prog("Remove") + ",\n    clear := " + prog("Clear") + " }\n" + mem + "\nend FinProto.Gen\n"
 			os.WriteFile(*outLock, []byte(src), 0o644)
+		}
+	}
+	if *outCodec != "" {
+		srcIR, summary := emitGoIR(*root, *codecNS)
+		if *codecNS == "Gen" {
+			var calls []string
+			for k := range callLog {
+				calls = append(calls, k)
+			}
+			sort.Strings(calls)
+			srcIR = strings.Replace(srcIR, "import FinProto.GoIR\n", "import FinProto.GoIR\nimport FinProto.Schema\n", 1)
+			srcIR = strings.Replace(srcIR, "\nend FinProto.Gen\n", "\n/-- every (is a write, codec function called, op it was read as) in the Encode / Decode bodies of the message types -/\ndef calls : List (Bool × String × FinProto.Op) := [\n  "+strings.Join(calls, ",\n  ")+"]\n\nend FinProto.Gen\n", 1)
+		}
+		os.WriteFile(*outCodec, []byte(srcIR), 0o644)
+		for _, l := range summary {
+			fmt.Fprintln(os.Stderr, "goir:", l)
 		}
 	}
 	nOpaque := 0
